@@ -131,3 +131,12 @@ claim("C07",
       "generation with nothing loaded/unloaded since; a reader is added to the view iff non-NULL and accepted by every configured filter. Setfile parsing, keep/unload "
       "bookkeeping over all histories, the clock, and snapshot contents are not decided.",
       "Trusts that equal timestamps mean the same generation (as the code does), T-cmp rows 24/25, loop bound 1 for the file loop.")
+
+claim("C17",
+      "recomputation of the Castagnoli slicing tables compared with the 2048 initialiser constants in the AST; byte accounting of both implementations by abstract path evaluation and structural recognition of the slicing-by-8 combination",
+      "Decides completely that all 2048 table constants equal the CRC-32C tables derived from polynomial 0x82F63B78 (thorough tier: also the byte-reversed big-endian tables). "
+      "Decides: the SSE4.2 main loop consumes 8 bytes at the cursor len/8 times and every tail case n consumes exactly n bytes at contiguous offsets chained through the running crc; "
+      "the table-driven code is head (byte steps to alignment) / main (len/8 groups, table k serving byte 7-k, shifts 0/8/16/24) / tail (len&7 byte steps) with the standard byte step; "
+      "both start at 0xFFFFFFFF and return the complement; the wrapper forwards (buf,size); only the two implementations and the trampoline are installed. The semantics of the "
+      "crc32 instructions and the equality of the two implementations as functions are not decided - the pinned tests only ever run the SSE4.2 path on this host.",
+      "Trusts the slicing-by-8 derivation encoded in the rule, the inline-asm crc32 instructions, and little-endian loads on this target.")
